@@ -21,7 +21,7 @@ RULE = ('programs of 1-3 nodes; every node carries a combination of option lists
         'value touches or misses (i.e. every generated program except bare declarations); distinct by rendered text')
 SHARDS = {'quick': 16, 'thorough': 16}
 MIN_NONTRIVIAL = {'quick': 2000, 'thorough': 50000}
-REQUIRED_CLASSES = ['edge:sliced-injection-into-bounded-array', 'edge:slice-within-bounds', 'edge:slice-outside-bounds', 'expected-accept', 'expected-reject', 'option-per-line', 'option-list-form', 'option-in-other-unit',
+REQUIRED_CLASSES = ['foreign-workload:C13', 'foreign-workload:C14', 'foreign-workload:C17', 'foreign-workload:C18', 'edge:sliced-injection-into-bounded-array', 'edge:slice-within-bounds', 'edge:slice-outside-bounds', 'expected-accept', 'expected-reject', 'option-per-line', 'option-list-form', 'option-in-other-unit',
                     'option-on', 'option-near', 'option-all-off', 'str-option-member', 'str-option-not-member',
                     'cond-le-on', 'cond-le-near', 'cond-lt-on', 'cond-ge-above', 'cond-eq-near', 'cond-ne-on',
                     'condition-compound', 'condition-constant-in-other-unit', 'bool-condition-satisfied',
@@ -29,7 +29,7 @@ REQUIRED_CLASSES = ['edge:sliced-injection-into-bounded-array', 'edge:slice-with
                     'format-violated', 'dimension-bounds', 'dimension-on-bound', 'dimension-just-outside',
                     'dimension-2d', 'declared-without-value', 'declared-then-assigned', 'modified',
                     'final-value-in-other-unit', 'combination-of-constraint-kinds', 'int-node-fractional-constant']
-REQUIRED_MONITORS = ['parses', 'parse_postcondition_evaluations', 'postcondition_node_checks', 'step_budget_guarded_parses']
+REQUIRED_MONITORS = ['foreign_workload_cases', 'parses', 'parse_postcondition_evaluations', 'postcondition_node_checks', 'step_budget_guarded_parses']
 ASSUMPTIONS = ['unanchored formats, values inside the tolerance band (1e-8 .. 1e-4 relative), strict comparisons and != '
                'on a boundary reached through a unit conversion, and comparisons of plain numbers with dimensional '
                'values are not generated (the statement does not fix them)',
@@ -58,6 +58,10 @@ def cases(rng, tier, shard, nshards, ctx):
     if tier == 'thorough' and shard == nshards - 1:
         yield dict(t='repotests')
     from vt.props import dip_edge
+    # the workloads of the other DIP checks, run under the parse post-condition (one batch per check and shard)
+    for pid in ('C13', 'C14', 'C17', 'C18'):
+        if (('C13', 'C14', 'C17', 'C18').index(pid) + shard) % 4 == 0 or tier == 'thorough':
+            yield dict(t='foreign', pid=pid, seed=rng.randrange(1 << 30), n=40 if tier == 'quick' else 500)
     for i in range(NPROG[tier] // nshards):
         yield R.gen_program(rng)
         if i % 8 == 0:
@@ -209,9 +213,30 @@ def run_repo_tests(case, ctx):
                                              deviations=len(data['deviations']), pytest=tail[0])))
 
 
+def run_foreign(case, ctx):
+    import os, sys, json, subprocess
+    p = subprocess.run([sys.executable, '-m', 'vt.props.c16_foreign', case['pid'], str(case['seed']), str(case['n'])],
+                       capture_output=True, text=True, timeout=3000, env=dict(os.environ))
+    line = [l for l in p.stdout.splitlines() if l.startswith('{')]
+    if not line:
+        raise RuntimeError('foreign workload %s produced no result: %s' % (case['pid'], (p.stderr or p.stdout)[-400:]))
+    data = json.loads(line[-1])
+    devs = [dev('foreign-workload:' + str(d['kind']), dict(workload=case['pid'], node=d['node'], detail=d['detail']), known=d.get('known'))
+            for d in data['deviations']]
+    return outcome(classes=['foreign-workload', 'foreign-workload:' + case['pid']], nontrivial=True,
+                   fp='foreign %s %d %d' % (case['pid'], case['seed'], case['n']), dev=devs,
+                   monitors={'parse_postcondition_evaluations': data['evaluations'], 'foreign_workload_cases': data['cases'],
+                             'foreign_workload_harness_errors': data['harness_errors']},
+                   sample=dict(text='%d generated cases of the %s workload parsed with the C16 post-condition on DIP.parse' % (data['cases'], case['pid']),
+                               expected='no returned environment violates its constraints',
+                               observed=dict(postcondition_evaluations=data['evaluations'], deviations=len(data['deviations']))))
+
+
 def run_case(case, ctx):
     if case.get('t') == 'repotests':
         return run_repo_tests(case, ctx)
+    if case.get('t') == 'foreign':
+        return run_foreign(case, ctx)
     if case.get('edge'):
         from vt.props import dip_edge
         out = dip_edge.run_c16(case, ctx)
